@@ -609,15 +609,24 @@ func (txn *KVTxn) InitPipelinedMemDB() error {
 	// generation is increased when the memdb is flushed to kv store.
 	// note the first generation is 1, which can mark pipelined dml's lock.
 	flushedKeys, flushedSize := 0, 0
+	// flushErr is the error of the first failed flush. The mutations of a failed flush are dropped from the
+	// buffer, so no later flush (in particular the one of Commit) may succeed. Closing the committer does not
+	// guarantee that: it is a no-op as long as the ttl manager has not been started, i.e. when the flush that
+	// fails is the one that carries the primary key.
+	var flushErr error
 	pipelinedMemDB := unionstore.NewPipelinedMemDB(func(ctx context.Context, keys [][]byte) (map[string]tikv.ValueEntry, error) {
 		return txn.snapshot.BatchGetWithTier(ctx, keys, txnsnapshot.BatchGetBufferTier, tikv.BatchGetOptions{})
 	}, func(generation uint64, memdb *unionstore.MemDB) (err error) {
+		if flushErr != nil {
+			return errors.Wrap(flushErr, "a previous flush of the pipelined transaction has failed")
+		}
 		if atomic.LoadUint32((*uint32)(&txn.committer.state)) == uint32(stateClosed) {
 			return errors.New("ttl manager is closed")
 		}
 		startTime := time.Now()
 		defer func() {
 			if err != nil {
+				flushErr = err
 				txn.committer.close()
 			}
 			flushedKeys += memdb.Len()
